@@ -2,7 +2,7 @@
   SAT under assumptions (`sat_propagate`): the propagated marks describe exactly the nodes without
   a model compatible with the assumptions, hence the SAT answer agrees with "count > 0".
 -/
-import DdnnfVerif.Proofs.CountA
+import DdnnfVerif.Proofs.ExecQuery
 
 namespace Ddnnf
 
@@ -100,17 +100,17 @@ theorem satMark_iff (nodes : List NType) (negs : List Int) (i : Nat) :
   exact table_rel SatRel (false, 0) 0 (fSatMark negs) (fCountA negs) (by simp [SatRel])
     (fSatMark_rel negs) nodes i
 
-theorem satQuery_exact (nodes : List NType) (n : Nat) (h : WF nodes n)
-    (hsat : 0 < count nodes (rootIx nodes)) (A : List Int) (hA : InRange A n) :
-    satQuery nodes n A = decide (0 < specCount nodes n A) := by
-  unfold satQuery
-  simp only []
-  by_cases hany : A.any (fun f => (coreOf nodes n).contains (-f)) = true
+/-- `sat` is exact for every sound core list -/
+theorem satQueryCore_exact (nodes : List NType) (n : Nat) (h : WF nodes n) (core : List Int)
+    (hcs : CoreSound core nodes) (hsat : 0 < count nodes (rootIx nodes)) (A : List Int)
+    (hA : InRange A n) :
+    satQueryCore core nodes A = decide (0 < specCount nodes n A) := by
+  unfold satQueryCore
+  by_cases hany : A.any (fun f => core.contains (-f)) = true
   · rw [if_pos hany]
     rw [List.any_eq_true] at hany
     obtain ⟨f, hf, hcore⟩ := hany
-    have := specCount_eq_zero_of_neg nodes n h A hA f hf
-      (core_sound nodes n h (-f) (by simpa using hcore))
+    have := specCount_eq_zero_of_neg nodes n h A hA f hf (hcs (-f) (by simpa using hcore))
     simp [this]
   · rw [if_neg hany]
     have hiff := satMark_iff nodes (A.map (fun f => -f)) (rootIx nodes)
@@ -129,10 +129,22 @@ theorem satQuery_exact (nodes : List NType) (n : Nat) (h : WF nodes n)
       have hpos : 0 < specCount nodes n A := Nat.pos_of_ne_zero this
       simp [hpos]
 
-theorem sat_iff_count_pos (nodes : List NType) (n : Nat) (h : WF nodes n)
+theorem satQuery_exact (nodes : List NType) (n : Nat) (h : WF nodes n) (hpd : PDLeaf nodes)
     (hsat : 0 < count nodes (rootIx nodes)) (A : List Int) (hA : InRange A n) :
-    satQuery nodes n A = decide (0 < execQuery nodes n A) := by
-  rw [execQuery_exact nodes n h A hA]
-  exact satQuery_exact nodes n h hsat A hA
+    satQuery nodes n A = decide (0 < specCount nodes n A) :=
+  satQueryCore_exact nodes n h _ (coreOf_sound nodes n h hpd) hsat A hA
+
+/-- `sat` agrees with "count > 0" for every sound core list -/
+theorem satCore_iff_count_pos (nodes : List NType) (n : Nat) (h : WF nodes n) (core : List Int)
+    (hcs : CoreSound core nodes) (hsat : 0 < count nodes (rootIx nodes)) (A : List Int)
+    (hA : InRange A n) :
+    satQueryCore core nodes A = decide (0 < execQueryCore core nodes A) := by
+  rw [execQueryCore_exact nodes n h core hcs A hA]
+  exact satQueryCore_exact nodes n h core hcs hsat A hA
+
+theorem sat_iff_count_pos (nodes : List NType) (n : Nat) (h : WF nodes n) (hpd : PDLeaf nodes)
+    (hsat : 0 < count nodes (rootIx nodes)) (A : List Int) (hA : InRange A n) :
+    satQuery nodes n A = decide (0 < execQuery nodes n A) :=
+  satCore_iff_count_pos nodes n h _ (coreOf_sound nodes n h hpd) hsat A hA
 
 end Ddnnf
